@@ -76,7 +76,7 @@ func ZZ_C12_goldilocks_scalar_Mul() {
 //zz: prop=C12 tier=deep backend=lia timeout=1500 budget=3600
 func ZZ_C12_goldilocks_scalar_FromBytes_114() { zzFromBytesCheck(114) }
 
-//zz: prop=C12 tier=quick backend=lia timeout=300
+//zz: prop=C12 also=C05 tier=quick backend=lia timeout=300
 func ZZ_C12_goldilocks_scalar_FromBytes() {
 	zzFromBytesCheck(zzPick("n", 0, 1, 55, 56, 57, 64))
 }
@@ -97,7 +97,7 @@ func zzFromBytesCheck(n int) {
 
 // mulWord: z = x*y exactly (8 limbs)
 //
-//zz: prop=C12 tier=quick backend=lia timeout=300
+//zz: prop=C12 also=C05 tier=quick backend=lia timeout=300
 func ZZ_C12_goldilocks_scalar_mulWord() {
 	var x scalar64
 	zzFill("x", &x)
@@ -111,7 +111,7 @@ func ZZ_C12_goldilocks_scalar_mulWord() {
 
 // reduceOneWord: z' ≡ z + 2^448*x (mod order) and the result fits in 448 bits (no carry lost)
 //
-//zz: prop=C12 tier=quick backend=lia timeout=300
+//zz: prop=C12 also=C05 tier=quick backend=lia timeout=300
 func ZZ_C12_goldilocks_scalar_reduceOneWord() {
 	var z scalar64
 	zzFill("z", &z)
@@ -123,7 +123,7 @@ func ZZ_C12_goldilocks_scalar_reduceOneWord() {
 
 // leftShift: (high, z') with high*2^448 + z' = z*2^64 + low
 //
-//zz: prop=C12 tier=quick backend=lia timeout=300
+//zz: prop=C12 also=C05 tier=quick backend=lia timeout=300
 func ZZ_C12_goldilocks_scalar_leftShift() {
 	var z scalar64
 	zzFill("z", &z)
